@@ -66,6 +66,9 @@ func (e *Engine) buildReport(prop, tier string, fns []string, want func(*Obligat
 		if !want(ob) {
 			continue
 		}
+		if len(e.unsupported[ob.Fn]) > 0 {
+			continue // the function is reported as not verified as a whole
+		}
 		r.instances = append(r.instances, ob)
 		a := agg[ob.Name]
 		if a == nil {
